@@ -326,9 +326,14 @@ impl Add<Pattern> for Pattern {
     type Output = Pattern;
 
     fn add(self, rhs: Pattern) -> Self::Output {
+        // the result ignores the case if any of the patterns does
+        let opts = PatternOpts {
+            case_insensitive: self.anchored_regex.is_case_insensitive()
+                || rhs.anchored_regex.is_case_insensitive(),
+        };
         let lhs = Pattern::group_alternation(&self.src);
         let rhs = Pattern::group_alternation(&rhs.src);
-        Pattern::regex((lhs + &rhs).as_str()).unwrap()
+        Pattern::regex_with((lhs + &rhs).as_str(), &opts).unwrap()
     }
 }
 
